@@ -492,6 +492,43 @@ def formatUtc (dt : DateTime) (fmt : Fmt) (short : Bool) (cap : Nat) : Except Er
   | none => .error .invalidArgument
   | some t => if t.length + 1 > cap ∨ t.length = 0 then .error .shortBuffer else .ok t
 
+/-! ### local-time formatters, for a fixed-offset process time zone
+
+`aws_date_time_to_local_time_str` / `…_short_str` format `dt->local_time` (`localtime_r` of the timestamp).
+For a POSIX zone without daylight saving (`TZ=NAMEoffset`, also `TZ=UTC`) local time is UTC shifted by a
+constant and `%Z` prints the name; other zones are not modelled. -/
+
+structure Zone where
+  off : Int := 0           -- seconds east of UTC
+  name : List Nat := []    -- what `%Z` prints
+deriving Repr, DecidableEq, Inhabited
+
+def localtime (z : Zone) (t : Int) : Tm := gmtime (t + z.off)
+
+/-- `strftime` with `%Z` -/
+def strftimeLocal (zn : List Nat) : List Nat → Tm → Option (List Nat)
+  | [], _ => some []
+  | c :: r, tm =>
+    if c = 37 then
+      match r with
+      | [] => none
+      | k :: r' =>
+        match (if k = 90 then some zn else strftimeConv k tm), strftimeLocal zn r' tm with
+        | some a, some b => some (a ++ b)
+        | _, _ => none
+    else (strftimeLocal zn r tm).map (c :: ·)
+
+/-- the `switch` of the two local-time formatters as generated; a case formatting `gmt_time` is outside the model -/
+def formatLocalText (z : Zone) (dt : DateTime) (fmt : Fmt) (short : Bool) : Option (List Nat) :=
+  match (if short then Gen.Date.localShortStr else Gen.Date.localStr).find? (fun e => e.1 = fmtIndex fmt) with
+  | some (_, false, f) => strftimeLocal z.name f (localtime z dt.timestamp)
+  | _ => none
+
+def formatLocal (z : Zone) (dt : DateTime) (fmt : Fmt) (short : Bool) (cap : Nat) : Except Err (List Nat) :=
+  match formatLocalText z dt fmt short with
+  | none => .error .invalidArgument
+  | some t => if t.length + 1 > cap ∨ t.length = 0 then .error .shortBuffer else .ok t
+
 /-- an `aws_byte_buf` as the formatters see it: the `len` bytes already present and the capacity
 (`len ≤ capacity` is the byte-buffer invariant; `capacity - len` is then the remaining space) -/
 structure Buf where
@@ -543,6 +580,12 @@ def asNanos (dt : DateTime) : Nat :=
     Gen.Math.Overflow.aws_add_u64_saturating (convert (toU64 dt.timestamp) Gen.Date.asNanosSecs).1
       (convert dt.millis Gen.Date.asNanosMillis).1
   else asNanosPlainAdd dt
+
+/-- `aws_date_time_diff` -/
+def diff (a b : DateTime) : Int := a.timestamp - b.timestamp
+
+/-- `aws_date_time_dst(dt, false)`: `gmtime_r` always sets `tm_isdst = 0` -/
+def accDst (_ : DateTime) : Bool := false
 
 /-! ### accessors (UTC), with the C result types -/
 
